@@ -282,63 +282,108 @@ def _rxn_text(i):
 BFS_STARTS = [((0, 3), "ABCD"), ((2, 9, 13), "HGFEDCBA"), ((7,), "ACE"), ((5, 10, 1), "ABEFG")]
 
 
+OTHER_SYSTEMS = [((4, 5), tuple("DEF")), ((12, 6), tuple("FBA"))]
+
+
+def _build(start_idx, hist):
+    """a fresh real system (fresh Reaction and Substance objects) reached by replaying `hist` from the start state, with
+    the model advanced in lock-step: nothing is shared between two states of the search, so every observation depends
+    on the state's own history only and is reproduced by replaying that history"""
+    seq, subs = BFS_STARTS[start_idx]
+    subs = tuple(subs)
+    _SUBST.clear()
+    rx = {i: mk_rxn(i) for i in range(len(POOL))}
+    obj = mk_sys(seq, subs, rx)
+    for op in hist:
+        obj, seq, subs = _apply(obj, seq, subs, op, rx, OTHER_SYSTEMS)
+    return obj, seq, subs, rx
+
+
+def _ops_of(seq, subs):
+    ops = []
+    for j in (1, 3, 8, 11, 12):
+        if j not in seq:
+            ops.append(("add_rxn", j))
+    for oi, (oseq, osubs) in enumerate(OTHER_SYSTEMS):
+        if not set(oseq) & set(seq):
+            ops.append(("add_sys", oi))
+            ops.append(("iadd_sys", oi))
+    for pi in range(len(PREDS)):
+        ops.append(("subset", pi, 0))
+        ops.append(("subset", pi, 1))
+    ncomp = len(model_split(seq, subs)) if seq else 0
+    for ci in range(min(ncomp, 3)):
+        ops.append(("split", ci))
+    return ops
+
+
+def check_transition(res, start_idx, hist, op, light=False):
+    """rebuild the parent from its history, apply one operation, compare result and operand with the model;
+    returns the model state of the successor or None"""
+    h2 = hist + (op,)
+    case = dict(layer="H", start=start_idx, hist=[list(o) for o in h2])
+    obj, seq, subs, rx = _build(start_idx, hist)
+    try:
+        new, mseq, msubs = _apply(obj, seq, subs, op, rx, OTHER_SYSTEMS)
+    except Exception as e:
+        res.outcomes["op-raises"] += 1
+        res.violation("C15|%s|raises" % op[0], "history %r raised %s" % (h2, type(e).__name__), case, "EXC %s" % type(e).__name__, None)
+        return None
+    res.evaluations += 1
+    now = (ids_of(obj, rx), tuple(obj.substances))
+    if now != (seq, subs):
+        res.outcomes["OPERAND-mutated"] += 1
+        res.violation("C15|%s|operand-mutated" % op[0], "history %r: the operation changed the system it was applied to: %r, was %r" % (h2, now, (seq, subs)), dict(case, query="operand"), now, (seq, subs))
+    if not mseq:
+        res.outcomes["empty-system"] += 1
+        return None
+    res.evaluations += 1
+    got = (ids_of(new, rx), tuple(new.substances))
+    if got != (mseq, msubs):
+        res.outcomes["op-WRONG"] += 1
+        res.violation("C15|%s|result" % op[0], "history %r from %r gives reactions/substances %r, definition says %r" % (h2, BFS_STARTS[start_idx], got, (mseq, msubs)), case, got, (mseq, msubs))
+        return None
+    # operating on the successor must not reach back into the operand either (aliased containers):
+    if op[0] in ("add_rxn", "add_sys", "subset", "split"):
+        try:
+            new += [rx[13]] if 13 not in mseq else []
+            new.substances["Zz"] = _subst("Zz")
+        except Exception:
+            pass
+        now = (ids_of(obj, rx), tuple(obj.substances))
+        if now != (seq, subs):
+            res.outcomes["OPERAND-aliased"] += 1
+            res.violation("C15|%s|result-aliases-operand" % op[0], "history %r: extending the result changed the operand: %r, was %r" % (h2, now, (seq, subs)), dict(case, query="alias"), now, (seq, subs))
+    return mseq, msubs
+
+
 def run_bfs(res, start_idx, depth):
-    """explicit-state search over histories; the real object is rebuilt by applying the last operation to the real
-    parent object; the model state is (reaction-id tuple, substance tuple)"""
+    """explicit-state search over histories; a state is the history reaching it, canonicalised by the model state
+    (reaction-id tuple, substance tuple); every transition rebuilds fresh real objects from the history"""
     seq0, subs0 = BFS_STARTS[start_idx]
     subs0 = tuple(subs0)
-    rx = {i: mk_rxn(i) for i in range(len(POOL))}
-    root = mk_sys(seq0, subs0, rx)
     seen = {(seq0, subs0): ()}
-    frontier = [((seq0, subs0), root, ())]
+    frontier = [((seq0, subs0), ())]
     res.states += 1
-    other_systems = [((4, 5), tuple("DEF")), ((12, 6), tuple("FBA"))]
     for d in range(depth):
         nxt = []
-        for (seq, subs), obj, hist in frontier:
-            ops = []
-            for j in (1, 3, 8, 11, 12):
-                if j not in seq:
-                    ops.append(("add_rxn", j))
-            for oi, (oseq, osubs) in enumerate(other_systems):
-                if not set(oseq) & set(seq):
-                    ops.append(("add_sys", oi))
-                    ops.append(("iadd_sys", oi))
-            for pi in range(len(PREDS)):
-                ops.append(("subset", pi, 0))
-                ops.append(("subset", pi, 1))
-            ncomp = len(model_split(seq, subs)) if seq else 0
-            for ci in range(min(ncomp, 3)):
-                ops.append(("split", ci))
-            for op in ops:
+        for (seq, subs), hist in frontier:
+            for op in _ops_of(seq, subs):
                 res.transitions += 1
                 res.symbols[op[0]] += 1
+                k = check_transition(res, start_idx, hist, op)
+                if k is None:
+                    continue
                 h2 = hist + (op,)
-                case = dict(layer="H", start=start_idx, hist=[list(o) for o in h2])
-                try:
-                    new, mseq, msubs = _apply(obj, seq, subs, op, rx, other_systems)
-                except Exception as e:
-                    res.outcomes["op-raises"] += 1
-                    res.violation("C15|%s|raises" % op[0], "history %r raised %s" % (h2, type(e).__name__), case, "EXC %s" % type(e).__name__, None)
-                    continue
-                if not mseq:
-                    res.outcomes["empty-system"] += 1
-                    continue
-                res.evaluations += 1
-                got = (ids_of(new, rx), tuple(new.substances))
-                if got != (mseq, msubs):
-                    res.outcomes["op-WRONG"] += 1
-                    res.violation("C15|%s|result" % op[0], "history %r from %r gives reactions/substances %r, definition says %r" % (h2, (seq0, subs0), got, (mseq, msubs)), case, got, (mseq, msubs))
-                    continue
-                k = (mseq, msubs)
                 if k in seen:
                     res.dedup_hits += 1
                     continue
                 seen[k] = h2
                 res.states += 1
                 res.nontrivial += 1
-                check_queries(res, new, mseq, msubs, case)
-                nxt.append((k, new, h2))
+                new, mseq, msubs, rx = _build(start_idx, h2)
+                check_queries(res, new, mseq, msubs, dict(layer="H", start=start_idx, hist=[list(o) for o in h2]))
+                nxt.append((k, h2))
                 if res.states % 97 == 1:
                     res.sample(dict(layer="H", history=[list(o) for o in h2], reactions=list(mseq), substances="".join(msubs)), limit=2)
         frontier = nxt
@@ -495,27 +540,15 @@ def replay(case):
         check_queries(res, mk_sys(seq, subs), seq, subs, case)
         res.violations = [v for v in res.violations if v["case"].get("query") == case.get("query")] or res.violations
     elif L == "H":
-        seq0, subs0 = BFS_STARTS[case["start"]]
-        rx = {i: mk_rxn(i) for i in range(len(POOL))}
-        other_systems = [((4, 5), tuple("DEF")), ((12, 6), tuple("FBA"))]
-        seq, subs = seq0, tuple(subs0)
-        obj = mk_sys(seq, subs, rx)
-        hist = [tuple(o) for o in case["hist"]]
-        for n, op in enumerate(hist):
-            try:
-                new, mseq, msubs = _apply(obj, seq, subs, op, rx, other_systems)
-            except Exception as e:
-                res.violation("C15|%s|raises" % op[0], "raised %s" % type(e).__name__, case, "EXC", None)
-                break
-            got = (ids_of(new, rx), tuple(new.substances))
-            if got != (mseq, msubs):
-                if n == len(hist) - 1:
-                    res.violation("C15|%s|result" % op[0], "result %r, expected %r" % (got, (mseq, msubs)), case, got, (mseq, msubs))
-                break
-            if n == len(hist) - 1:
-                check_queries(res, new, mseq, msubs, case)
-                res.violations = [v for v in res.violations if v["case"].get("query") == case.get("query")] or res.violations
-            obj, seq, subs = new, mseq, msubs
+        hist = tuple(tuple(o) for o in case["hist"])
+        if case.get("query") in (None, "operand", "alias"):
+            check_transition(res, case["start"], hist[:-1], hist[-1])
+            want = {"operand": "operand-mutated", "alias": "result-aliases-operand"}.get(case.get("query"))
+            res.violations = [v for v in res.violations if want is None or v["key"].endswith(want)] or res.violations
+        else:
+            new, mseq, msubs, rx = _build(case["start"], hist)
+            check_queries(res, new, mseq, msubs, case)
+            res.violations = [v for v in res.violations if v["case"].get("query") == case.get("query")] or res.violations
     elif L == "U":
         sub = Result()
         run_bounds(sub, case["idx"])
